@@ -105,6 +105,7 @@ func judge(p *Prop, l *Ledger, s *Stats, v *Verdict) (fail bool) {
 		} else {
 			v.Excluded = "crash-unlisted"
 			s.CrashNotes[v.Sig]++
+			v.Msg = "UNLISTED-CRASH " + v.Msg
 		}
 		return false
 	}
@@ -140,6 +141,10 @@ func TestWorker(t *testing.T) {
 		fail = judge(p, l, s, &v)
 		if !shrinking {
 			s.Record(cj, v)
+		}
+		if v.Excluded == "crash-unlisted" && len(s.CrashCases) < 5 {
+			// keep the input: the crash belongs to C01 but must be triaged
+			s.CrashCases = append(s.CrashCases, ViolationRec{Property: p.ID, Sig: v.Sig, Msg: v.Msg, Case: cj, Seed: *fSeed, Tier: tier.String()})
 		}
 		if fail {
 			rec := ViolationRec{Property: p.ID, Sig: v.Sig, Msg: v.Msg, Case: cj, Seed: *fSeed, Tier: tier.String(), Shrunk: shrinking}
